@@ -160,12 +160,16 @@ impl<T> ParallelVecWriter<T> {
 
     fn reserve_space(&self, len: usize) -> usize {
         let start = self.end_len.fetch_add(len, Ordering::AcqRel);
+        #[cfg(feature = "verif-hooks")]
+        crate::verif::yield_point(crate::verif::site::PWRITER);
         let end = start + len;
         let reader = self.data.read();
         let current_len = reader.len();
         let current_cap = reader.capacity();
         mem::drop(reader);
         if current_cap < end {
+            #[cfg(feature = "verif-hooks")]
+            crate::verif::yield_point(crate::verif::site::PWRITER);
             let mut writer = self.data.lock();
             if writer.capacity() < end {
                 let new_cap = std::cmp::max(end, writer.capacity() * 2);
